@@ -1,0 +1,18 @@
+"""Verification hooks (inactive unless the environment variable UFL_VERIF is set to 1).
+
+When enabled, the preprocessing pipeline reports every pass it runs to the registered sinks, in
+the order in which the passes run.  The hooks only observe: they never change a form.
+"""
+
+import os
+
+enabled = os.environ.get("UFL_VERIF") == "1"
+
+#: callables sink(stage, obj, info) installed by a verification harness
+sinks: list = []
+
+
+def emit(stage, obj=None, **info):
+    """Report that pipeline stage ``stage`` has produced ``obj``."""
+    for sink in sinks:
+        sink(stage, obj, info)
